@@ -34,6 +34,11 @@ type c16Case struct {
 	Bound     int         `json:"bound,omitempty"`
 	FnPts     bool        `json:"fn_points,omitempty"` // function entries are scheduling points too
 	Choices   []vrt.Point `json:"choices,omitempty"`
+	// Prior: sequences of an earlier Phase() run on the SAME Phaser (same references), whose stream is
+	// consumed and dropped; the run that is judged must be what a fresh Phaser gives
+	Prior []string `json:"prior,omitempty"`
+	// Scores: flat match / mismatch scores given through SetAlignScores (--match / --mismatch)
+	Scores []float64 `json:"scores,omitempty"`
 }
 
 // ---- brute-force ORF oracle
@@ -249,6 +254,9 @@ func c16Phaser(cs c16Case) align.Phaser {
 	p.SetTranslate(cs.Translate, cs.Code)
 	p.SetReverse(cs.Reverse)
 	p.SetCutEnd(cs.CutEnd)
+	if len(cs.Scores) == 2 {
+		p.SetAlignScores(cs.Scores[0], cs.Scores[1])
+	}
 	return p
 }
 
@@ -282,7 +290,23 @@ func c16Run(cs c16Case) c16Out {
 		o.AutoAlphabet()
 		orfs = o
 	}
-	ch, err := c16Phaser(cs).Phase(orfs, seqs)
+	phaser := c16Phaser(cs)
+	if len(cs.Prior) > 0 {
+		if prior, perr := mkSeqBag(align.NUCLEOTIDS, namedRows(cs.Prior...)); perr == nil {
+			var porfs align.SeqBag
+			if orfs != nil {
+				porfs, _ = orfs.CloneSeqBag()
+			}
+			if pch, e := phaser.Phase(porfs, prior); e == nil {
+				for vrt.BeforeRecv(pch) {
+					if _, ok := <-pch; !ok {
+						break
+					}
+				}
+			}
+		}
+	}
+	ch, err := phaser.Phase(orfs, seqs)
 	if err != nil {
 		out.err = err
 		out.closed = true
@@ -857,6 +881,40 @@ func c16Tasks(tier string) []mc.Task {
 				for _, tr := range []bool{false, true} {
 					for _, ce := range []bool{false, true} {
 						c16CheckPhase(c, c16Case{Kind: "phase", Seqs: []string{f5 + ref + "G"}, Orf: ref, Translate: tr, CutEnd: ce, Code: code, Cpus: 1})
+					}
+				}
+			}
+		}
+	}})
+	// one Phaser, two runs: an earlier run that fails (a sequence too short to translate / to align), succeeds,
+	// or finds nothing, then the run that is judged
+	ts = append(ts, mc.Task{Name: "phase#reused-phaser", Run: func(c *mc.Ctx) {
+		ref := c16Refs[0]
+		for _, prior := range [][]string{{"ATGC"}, {"AT"}, {"CC" + ref, "ATGC", ref}, {c16NoSim}, {"C" + ref + "G"}} {
+			for _, tr := range []bool{true, false} {
+				for _, cpus := range []int{1, 2} {
+					for _, set := range [][]string{{"C" + ref + "G"}, {"CC" + ref, ref + "GTT", "C" + ref + "G"}} {
+						c16CheckPhase(c, c16Case{Kind: "phase", Seqs: set, Orf: ref, Translate: tr, Cpus: cpus, Prior: prior})
+						c16CheckPhase(c, c16Case{Kind: "phase", Seqs: set, Translate: tr, Cpus: cpus, Prior: prior})
+					}
+				}
+			}
+		}
+	}})
+	// flat match / mismatch scores (--match / --mismatch): the clauses do not depend on the scoring scheme
+	ts = append(ts, mc.Task{Name: "phase#flat-scores", Run: func(c *mc.Ctx) {
+		for _, ref := range c16Refs {
+			for _, sc := range [][]float64{{1, -1}, {2, -3}, {5, -4}} {
+				for _, f5 := range []string{"", "C", "CC", "CCTTAGG"} {
+					for _, tr := range []bool{true, false} {
+						for _, rev := range []bool{false, true} {
+							seq := f5 + ref + "GCC"
+							if rev {
+								seq = c08RevComp(seq)
+							}
+							c16CheckPhase(c, c16Case{Kind: "phase", Seqs: []string{seq}, Orf: ref, Translate: tr, Reverse: rev, Cpus: 1, Scores: sc})
+							c16CheckPhase(c, c16Case{Kind: "phase", Seqs: []string{seq, "CC" + ref}, Orf: ref, Translate: tr, Reverse: rev, CutEnd: true, Cpus: 1, Scores: sc})
+						}
 					}
 				}
 			}
